@@ -227,6 +227,15 @@ func c10Gen(c *engine.C) engine.Case {
 	}
 	src := jg.Print(cls, layout)
 	files := []FileSpec{{Path: "src/Big.java", Content: src}}
+	// a file analysed after it that declares neither a class nor an interface: nothing is to be reported for it
+	switch engine.PickTag(c, "file-without-class-after-it", "none", "enum-with-getter", "package-info", "annotation-type") {
+	case "enum-with-getter":
+		files = append(files, FileSpec{Path: "src/Colour.java", Content: "package p;\n\npublic enum Colour {\n    RED, GREEN;\n\n    private int code;\n\n    public int getCode() {\n        return code;\n    }\n}\n"})
+	case "package-info":
+		files = append(files, FileSpec{Path: "src/package-info.java", Content: "/** documentation only */\npackage p;\n"})
+	case "annotation-type":
+		files = append(files, FileSpec{Path: "src/Marks.java", Content: "package p;\n\npublic @interface Marks {\n    String value();\n}\n"})
+	}
 	// ignore subsets with <= 2 (quick) kinds
 	var subsets [][]string
 	subsets = append(subsets, nil)
